@@ -79,6 +79,7 @@ func (server *SugarDB) SwapDBs(database1, database2 int) {
 // Flush flushes all the data from the database at the specified index.
 // When -1 is passed, all the logical databases are cleared.
 func (server *SugarDB) Flush(database int) {
+	verifhook.Point("keyspace.prim.enter")
 	verifhook.Point("keyspace.flush")
 	server.storeLock.Lock()
 	defer server.storeLock.Unlock()
@@ -119,6 +120,7 @@ func (server *SugarDB) Flush(database int) {
 }
 
 func (server *SugarDB) keysExist(ctx context.Context, keys []string) map[string]bool {
+	verifhook.Point("keyspace.prim.enter")
 	verifhook.Point("keyspace.keysExist")
 	server.storeLock.RLock()
 	defer server.storeLock.RUnlock()
@@ -136,6 +138,7 @@ func (server *SugarDB) keysExist(ctx context.Context, keys []string) map[string]
 }
 
 func (server *SugarDB) getExpiry(ctx context.Context, key string) time.Time {
+	verifhook.Point("keyspace.prim.enter")
 	verifhook.Point("keyspace.getExpiry")
 	server.storeLock.RLock()
 	defer server.storeLock.RUnlock()
@@ -151,6 +154,7 @@ func (server *SugarDB) getExpiry(ctx context.Context, key string) time.Time {
 }
 
 func (server *SugarDB) getValues(ctx context.Context, keys []string) map[string]interface{} {
+	verifhook.Point("keyspace.prim.enter")
 	verifhook.Point("keyspace.getValues")
 	server.storeLock.Lock()
 	defer server.storeLock.Unlock()
@@ -193,7 +197,9 @@ func (server *SugarDB) getValues(ctx context.Context, keys []string) map[string]
 	}
 
 	// Asynchronously update the keys in the cache.
+	verifhook.Point("keyspace.async.spawn")
 	go func(ctx context.Context, keys []string) {
+		defer verifhook.Point("keyspace.async.done")
 		if _, err := server.updateKeysInCache(ctx, keys); err != nil {
 			log.Printf("getValues error: %+v\n", err)
 		}
@@ -203,6 +209,7 @@ func (server *SugarDB) getValues(ctx context.Context, keys []string) map[string]
 }
 
 func (server *SugarDB) setValues(ctx context.Context, entries map[string]interface{}) error {
+	verifhook.Point("keyspace.prim.enter")
 	verifhook.Point("keyspace.setValues")
 	server.storeLock.Lock()
 	defer server.storeLock.Unlock()
@@ -243,7 +250,9 @@ func (server *SugarDB) setValues(ctx context.Context, entries map[string]interfa
 	}
 
 	// Asynchronously update the keys in the cache.
+	verifhook.Point("keyspace.async.spawn")
 	go func(ctx context.Context, entries map[string]interface{}) {
+		defer verifhook.Point("keyspace.async.done")
 		for key, _ := range entries {
 			_, err := server.updateKeysInCache(ctx, []string{key})
 			if err != nil {
@@ -256,6 +265,7 @@ func (server *SugarDB) setValues(ctx context.Context, entries map[string]interfa
 }
 
 func (server *SugarDB) setExpiry(ctx context.Context, key string, expireAt time.Time, touch bool) {
+	verifhook.Point("keyspace.prim.enter")
 	verifhook.Point("keyspace.setExpiry")
 	server.storeLock.Lock()
 	defer server.storeLock.Unlock()
@@ -276,7 +286,9 @@ func (server *SugarDB) setExpiry(ctx context.Context, key string, expireAt time.
 
 	// If touch is true, update the keys status in the cache.
 	if touch {
+		verifhook.Point("keyspace.async.spawn")
 		go func(ctx context.Context, key string) {
+			defer verifhook.Point("keyspace.async.done")
 			_, err := server.updateKeysInCache(ctx, []string{key})
 			if err != nil {
 				log.Printf("setExpiry error: %+v\n", err)
@@ -418,6 +430,7 @@ func (server *SugarDB) updateKeysInCache(ctx context.Context, keys []string) (in
 	for db, _ := range server.store {
 		wg.Add(1)
 		ctx := context.WithValue(ctx, "Database", db)
+		verifhook.Point("keyspace.adjust.spawn")
 		go func(ctx context.Context, database int, wg *sync.WaitGroup, errChan *chan error) {
 			if err := server.adjustMemoryUsage(ctx); err != nil {
 				*errChan <- fmt.Errorf("adjustMemoryUsage database %d, error: %v", database, err)
@@ -442,6 +455,8 @@ func (server *SugarDB) updateKeysInCache(ctx context.Context, keys []string) (in
 
 // adjustMemoryUsage should only be called from standalone echovault or from raft cluster leader.
 func (server *SugarDB) adjustMemoryUsage(ctx context.Context) error {
+	verifhook.Point("keyspace.adjust.enter")
+	defer verifhook.Point("keyspace.adjust.exit")
 	// If max memory is 0, there's no need to adjust memory usage.
 	if server.config.MaxMemory == 0 {
 		return nil
